@@ -5,9 +5,16 @@ use super::*;
 macro_rules! dump_table {
   ($rtx:expr, $out:expr, $table:ident) => {{
     let mut rows = Vec::new();
-    for row in $rtx.open_table($table)?.iter()? {
-      let (key, value) = row?;
-      rows.push((format!("{:?}", key.value()), format!("{:?}", value.value())));
+    // a table that no write transaction has opened yet does not exist: dump it as empty
+    match $rtx.open_table($table) {
+      Ok(table) => {
+        for row in table.iter()? {
+          let (key, value) = row?;
+          rows.push((format!("{:?}", key.value()), format!("{:?}", value.value())));
+        }
+      }
+      Err(redb::TableError::TableDoesNotExist(_)) => {}
+      Err(err) => return Err(err.into()),
     }
     $out.insert(stringify!($table).to_string(), rows);
   }};
